@@ -238,6 +238,7 @@ type svcSpec struct {
 	extLocal, intLocal bool
 	sticky             int
 	maglev             bool
+	exclude            bool // annotation projectcalico.org/natExcludeService
 }
 
 type epSpec struct {
@@ -273,7 +274,7 @@ func buildState(st []svcState, rec *[]int) proxy.DPSyncerState {
 	for _, ss := range st {
 		s := ss.svc
 		n := sname(s)
-		opts := []proxy.K8sServicePortOption{proxy.VerifSvcPolicy(s.extLocal, s.intLocal, s.maglev)}
+		opts := []proxy.K8sServicePortOption{proxy.VerifSvcPolicy(s.extLocal, s.intLocal, s.maglev, s.exclude)}
 		if s.np != 0 {
 			opts = append(opts, proxy.K8sSvcWithNodePort(s.np))
 		}
@@ -334,8 +335,8 @@ func coqState(st []svcState) string {
 		for _, e := range ss.eps {
 			es = append(es, fmt.Sprintf("Ep %d %d %s %s %d", e.ip, e.port, coqBool(e.ready), coqBool(e.local), e.node))
 		}
-		xs = append(xs, fmt.Sprintf("(Svc %d %d %d %d %d %s %s %s %s %d %s, [%s])", s.name, s.cip, s.port, s.proto, s.np,
-			coqList(s.ext), coqList(s.lb), coqBool(s.extLocal), coqBool(s.intLocal), s.sticky, coqBool(s.maglev), strings.Join(es, "; ")))
+		xs = append(xs, fmt.Sprintf("(Svc %d %d %d %d %d %s %s %s %s %d %s %s, [%s])", s.name, s.cip, s.port, s.proto, s.np,
+			coqList(s.ext), coqList(s.lb), coqBool(s.extLocal), coqBool(s.intLocal), s.sticky, coqBool(s.maglev), coqBool(s.exclude), strings.Join(es, "; ")))
 	}
 	return "[" + strings.Join(xs, "; ") + "]"
 }
@@ -657,7 +658,9 @@ func genSvc(r *rng, name int, maglevOK bool) svcState {
 }
 
 func mutateSvc(r *rng, s *svcSpec, maglevOK bool) {
-	switch r.intn(9) {
+	switch r.intn(10) {
+	case 9:
+		s.exclude = !s.exclude
 	case 0:
 		s.port = 80 + r.intn(3)
 	case 1:
@@ -815,6 +818,9 @@ func genHistory(r *rng, maglevOK bool) ([]step, []string) {
 			}
 			if s.svc.sticky != 0 {
 				tags["sessionAffinity"] = true
+			}
+			if s.svc.exclude {
+				tags["natExcludeService"] = true
 			}
 			for _, e := range s.eps {
 				if e.terminating {
